@@ -131,7 +131,15 @@ func (c *CaveatSet) DecodeMsgpack(dec *msgpack.Decoder) error {
 	nCavs := aLen / 2
 
 	if c.Caveats == nil {
-		c.Caveats = make([]Caveat, 0, nCavs)
+		// the length comes off the wire: don't let it drive a huge allocation
+		capHint := nCavs
+		if capHint > 64 {
+			capHint = 64
+		}
+		if capHint < 0 {
+			capHint = 0
+		}
+		c.Caveats = make([]Caveat, 0, capHint)
 	}
 
 	for i := 0; i < nCavs; i++ {
